@@ -61,6 +61,21 @@ def tasks(tier):
                    strat_menu=[1, 9], strat_free=True, overshoot=[0, 3], over_free=True,
                    max_unknown=None, sleeper="policy")
         out.append({"family": "envelope-assigned", "cfg": cfg, "entry": e, "bound": 0, "weight": 3})
+    # a deadline that is not a multiple of the clock tick nor of a millisecond (0.3754 s), through
+    # the plain constructor and through RetryConfig
+    for e in Q4 + ["RetryCfg.call", "AsyncRetryCfg.execute", "RetryPolicyCfg.execute",
+                   "AsyncRetryPolicyCfg.call", "RetryPolicySet.call"]:
+        cfg = dict(M=3, deadline=3.0032, alphabet=["ok", "x:T", "r:R"], durs=[0, 1, 3, 4],
+                   dur_free=True, strat_menu=[1, 9], strat_free=True, overshoot=[0, 1],
+                   over_free=True, max_unknown=None, sleeper="policy")
+        out.append({"family": "envelope-fractional", "cfg": cfg, "entry": e, "bound": 0, "weight": 3})
+    # time passes inside the strategy object's record_failure(), i.e. between the library's
+    # deadline test and its computation of the remaining time
+    for D, e in itertools.product([2, 3], Q4):
+        cfg = dict(M=3, deadline=D, alphabet=["ok", "x:T", "r:R"], durs=[0, 1], dur_free=True,
+                   strat_menu=[1, 9], strat_free=True, strat_obj=True, rec_durs=[0, 1, 2, 4],
+                   max_unknown=None, sleeper="call")
+        out.append({"family": "envelope-slow-record", "cfg": cfg, "entry": e, "bound": 2, "weight": 3})
     for t in nest_tasks(Q4, "envelope-reentrant", ["ok", "x:T", "r:R"], bound=1, deadline=3,
                         durs=[0, 2], dur_free=True, strat_menu=[1, 9], overshoot=[0, 3]):
         t["cfg"]["nest"] = dict(t["cfg"]["nest"], script=["x:T", "ok"])
@@ -87,7 +102,7 @@ def monitor(w, cfg):
             if k == "op":
                 el0 = r[3] - call.t_start
                 el1 = r[4] - call.t_start
-                if el0 > D:
+                if el0 > D + 1e-9:
                     v.append(("c02.attempt-after-deadline",
                               f"attempt {r[1]} begins at elapsed {el0} > deadline {D}"))
                 if stop_seen is not None:
@@ -103,7 +118,7 @@ def monitor(w, cfg):
                     v.append(("c02.bad-sleep", f"sleeper called with {s!r}"))
                     continue
                 total += s
-                if s > D - el:
+                if s > D - el + 1e-9:
                     v.append(("c02.sleep-past-deadline",
                               f"sleep of {s} requested at elapsed {el}, only {D - el} remains"))
                 if stop_seen is not None:
